@@ -42,6 +42,7 @@ class Report(object):
         self.tier = tier
         self.obligations = []
         self.notes = []
+        self.not_evaluated = []    # white-box rules whose internal anchors do not exist in this tree: {rules, reason, decided_by}
         self.floors = []   # (rule, expected minimum, seen)
         self.analysed = {}
         self.t0 = time.time()
@@ -76,12 +77,32 @@ class Report(object):
             seen = sum(1 for o in self.obligations if o.rule == rule)
         self.floors.append((rule, expected, seen))
 
+    def optional(self, rules, decided_by, fn):
+        """Run a white-box rule. If the internal names it is written against are gone (LostAnchor) the rule is reported as not evaluated - the
+        behaviour it sharpens is decided by the end-to-end rules `decided_by`, which must have run - instead of failing the whole check."""
+        from .model import LostAnchor
+        mark = len(self.obligations)
+        try:
+            fn()
+        except LostAnchor as e:
+            del self.obligations[mark:]
+            self.not_evaluated.append({'rules': list(rules), 'reason': str(e), 'decided_by': list(decided_by)})
+            self.notes.append('NOT-EVALUATED %s: %s; the behaviour is decided end to end by %s' % (', '.join(rules), e, ', '.join(decided_by)))
+
     def check_floors(self):
         """A rule that matched fewer instances than were confirmed by reading has lost its anchors: no verdict (exit 2) - unless the
         run already reports violations, which then are the verdict."""
         if self.violations():
             return
+        skipped = {r for ne in self.not_evaluated for r in ne['rules']}
+        for ne in self.not_evaluated:
+            for r in ne['decided_by']:
+                if r in skipped or not any(o.rule == r for o in self.obligations):
+                    raise AnalysisError('rule(s) %s could not be evaluated (%s) and the end-to-end rule %s that decides the same behaviour did not run either'
+                                        % (', '.join(ne['rules']), ne['reason'], r))
         for (rule, expected, seen) in self.floors:
+            if rule in skipped:
+                continue
             if seen < expected:
                 raise AnalysisError('rule %s matched %d instance(s), fewer than the %d confirmed by reading: the rule has lost its '
                                     'anchors (vacuous pass refused)' % (rule, seen, expected))
@@ -168,6 +189,7 @@ def finish(rep, seed=0, write=True, quiet=False):
                 'trusted_base': rep.trusted or ["CPython's own ast / tokenize / symtable / argparse used as reference tables", 'probe templates written by hand (listed in DESIGN.md)'],
                 'known_findings_matched': [v.key for v, _ in listed],
                 'notes': rep.notes[:60],
+                'not_evaluated': rep.not_evaluated,
                 'exhaustive': True,
             },
             'assumptions': rep.assumptions or ['a discharged obligation is a necessary condition of the property, not the property itself'],
